@@ -16,12 +16,12 @@ type Dev struct {
 
 // Case is one hostile input in symbolic form; the bytes are rendered from it by the worker.
 type Case struct {
-	Group  string `json:"group"`            // client | decoder | size
-	Target string `json:"target"`           // entry point (decoder), client:<seed>, size:<limit>
-	Seed   string `json:"seed,omitempty"`   // seed name
-	Raw    string `json:"raw,omitempty"`    // decoder group: literal input (hex) instead of a seed; "-" is the empty input
-	Devs   []Dev  `json:"devs,omitempty"`   // deviations applied to the seed
-	Size   string `json:"size,omitempty"`   // size group: total=N | remaining=N | remaining=N+1
+	Group  string `json:"group"`          // client | decoder | size
+	Target string `json:"target"`         // entry point (decoder), client:<seed>, size:<limit>
+	Seed   string `json:"seed,omitempty"` // seed name
+	Raw    string `json:"raw,omitempty"`  // decoder group: literal input (hex) instead of a seed; "-" is the empty input
+	Devs   []Dev  `json:"devs,omitempty"` // deviations applied to the seed
+	Size   string `json:"size,omitempty"` // size group: total=N | remaining=N | remaining=N+1
 }
 
 func (c Case) devKinds() string {
